@@ -199,6 +199,14 @@ fn check_view_range(
                     format!("view prefix {} range_keys / range_values({:?},{:?},desc={}) disagree with the model window", short(&prefix), start.map(hex), end.map(hex), desc),
                 );
             }
+            if got == exp {
+                let am = catch_unwind(AssertUnwindSafe(|| with_view(app, path, |v| crate::storage::adaptor_mismatch(v, start, end, order, &exp))));
+                match am {
+                    Err(p) => ctx.fail("C07.panic", format!("view prefix {} range consumed through iterator adaptors panicked: {}", short(&prefix), panic_message(&p))),
+                    Ok(Some(d)) => ctx.fail("C07.range_mismatch", format!("view prefix {} range({:?},{:?},desc={}): {}", short(&prefix), start.map(hex), end.map(hex), desc, d)),
+                    Ok(None) => {}
+                }
+            }
             if got != exp {
                 ctx.fail(
                     "C07.range_mismatch",
@@ -279,10 +287,23 @@ impl Engine for Pfx07 {
             format!("v{}", counter).into_bytes()
         };
         let mut ops = vec![];
+        let mut written: Vec<(usize, Vec<u8>)> = vec![];
         for _ in 0..nops {
             let view = rng.usize(nviews);
             let op = match rng.weighted(&w) {
-                0 => Op::Set { view, k: small_key(rng), v: val() },
+                0 => {
+                    let k = small_key(rng);
+                    written.push((view, k.clone()));
+                    Op::Set { view, k, v: val() }
+                }
+                4 if !written.is_empty() && rng.chance(1, 2) => {
+                    let (view, k) = rng.pick(&written).clone();
+                    Op::RoSet { view, k }
+                }
+                5 if !written.is_empty() && rng.chance(1, 2) => {
+                    let (view, k) = rng.pick(&written).clone();
+                    Op::RoRemove { view, k }
+                }
                 1 => Op::Remove { view, k: small_key(rng) },
                 2 => Op::Get { view, k: small_key(rng) },
                 3 => {
@@ -473,6 +494,20 @@ impl Engine for Pfx07 {
                     ctx.stats.fault("readonly_write_attempt");
                     if r.is_ok() {
                         ctx.fail("C07.readonly_accepts_write", format!("read-only view accepted set({})", hex(k)));
+                    }
+                    // a write that would not change anything is a write all the same
+                    let mut rk = prefixes[vi].clone();
+                    rk.extend_from_slice(k);
+                    if let Some(cur) = raw.get(&rk).cloned() {
+                        let r = catch_unwind(AssertUnwindSafe(|| {
+                            let refs: Vec<&[u8]> = paths[vi].iter().map(|s| s.as_slice()).collect();
+                            let mut v = app.prefixed_multilevel_storage(&refs);
+                            v.set(k, &cur);
+                        }));
+                        ctx.stats.probe("readonly_set_of_stored_value");
+                        if r.is_ok() {
+                            ctx.fail("C07.readonly_accepts_write", format!("read-only view accepted set({}) of the value already stored", hex(k)));
+                        }
                     }
                     if paths[vi].len() == 1 {
                         let r = catch_unwind(AssertUnwindSafe(|| {
